@@ -452,6 +452,7 @@ func (p *packet) searchParmeters() (*searchParameters, error) {
 		return nil, fmt.Errorf("%s: missing filter: %w", op, ErrInvalidParameter)
 	}
 
+	decodeExtensibleMatchDNAttributes(requestPacket.Children[childFilter])
 	filter, err := ldap.DecompileFilter(requestPacket.Children[childFilter])
 	if err != nil {
 		return nil, fmt.Errorf("%s: unable to decompile filter: %w", op, err)
@@ -492,6 +493,29 @@ func (p *packet) searchParmeters() (*searchParameters, error) {
 	}
 
 	return &searchFor, nil
+}
+
+// decodeExtensibleMatchDNAttributes sets the Value of the dnAttributes of every
+// extensible match within a filter packet.  dnAttributes is a context specific
+// BOOLEAN, which the ber package doesn't decode when it reads a packet, but
+// ldap.DecompileFilter expects its Value to be a bool (otherwise it fails to
+// decompile a filter like "(cn:dn:2.5.13.2:=a)").
+func decodeExtensibleMatchDNAttributes(filter *ber.Packet) {
+	if filter == nil || filter.ClassType != ber.ClassContext || filter.TagType != ber.TypeConstructed {
+		return
+	}
+	for _, child := range filter.Children {
+		switch {
+		case child == nil:
+		case filter.Tag == ldap.FilterExtensibleMatch && child.ClassType == ber.ClassContext && child.TagType == ber.TypePrimitive && child.Tag == ldap.MatchingRuleAssertionDNAttributes:
+			if _, ok := child.Value.(bool); !ok {
+				val, _ := ber.ParseInt64(child.Data.Bytes())
+				child.Value = val != 0
+			}
+		default:
+			decodeExtensibleMatchDNAttributes(child) // and, or, not
+		}
+	}
 }
 
 func (p *packet) assert(cl ber.Class, ty ber.Type, opt ...Option) error {
